@@ -57,6 +57,20 @@ func (p *wat2wasmWorker) findFuncIndex(ident string) wasm.Index {
 	}
 	panic(fmt.Sprintf("wat2wasm: unknown func %q", ident))
 }
+func (p *wat2wasmWorker) findFuncIndexByExportName(exportName string) wasm.Index {
+	var importCount int
+	for _, x := range p.mWat.Imports {
+		if x.ObjKind == token.FUNC {
+			importCount++
+		}
+	}
+	for i, fn := range p.mWat.Funcs {
+		if fn.ExportName == exportName {
+			return wasm.Index(importCount + i)
+		}
+	}
+	panic(fmt.Sprintf("wat2wasm: unknown exported func %q", exportName))
+}
 func (p *wat2wasmWorker) findFuncLocalIndex(fn *ast.Func, ident string) wasm.Index {
 	if idx, err := strconv.Atoi(ident); err == nil {
 		return wasm.Index(idx)
